@@ -136,6 +136,11 @@ def section_lines(frame: dict, syms: list[str], prefix: str, first: bool) -> lis
         out.append(D("sealed"))
     elif frame["mode"] == "extent-last":
         out.append(D("extent", "64 * 8", 512, ["@extent", "64", "*", "8"]))
+    elif frame["mode"] == "extent-zero":
+        # an extent of exactly zero bits: only a section without fields can have it; it is a delimited type all the same
+        if nfields or "P" in syms:
+            return None
+        out.append(D("extent", "0", 0, ["@extent", "0"]))
     return out
 
 
@@ -204,12 +209,15 @@ def frames(tier: str, which: str) -> list[dict]:
     if which == "full":
         for header, union, dep, mode in itertools.product([0, 1, 2], [False, True], [False, True], ["sealed-first", "sealed-last", "extent-last"]):
             fs.append({"header": header, "union": union, "deprecated": dep, "mode": mode})
+        for header, dep in itertools.product([0, 1], [False, True]):
+            fs.append({"header": header, "union": False, "deprecated": dep, "mode": "extent-zero"})
     elif which == "mid":
         for header, union, mode in itertools.product([0, 1], [False, True], ["sealed-first", "sealed-last", "extent-last"]):
             fs.append({"header": header, "union": union, "deprecated": False, "mode": mode})
     elif which == "basic":
         for header, mode in itertools.product([0, 1], ["sealed-first", "sealed-last", "extent-last"]):
             fs.append({"header": header, "union": False, "deprecated": False, "mode": mode})
+        fs.append({"header": 0, "union": False, "deprecated": False, "mode": "extent-zero"})
     elif which == "min":
         fs = [
             {"header": 0, "union": False, "deprecated": False, "mode": "sealed-first"},
